@@ -17,6 +17,12 @@ set_option linter.unusedSimpArgs false
 namespace Heimdall.Props.C05
 open Heimdall Heimdall.Jwt Heimdall.Jwt.SrcTie
 
+/-- splits every `if` / `bif` of a translated body (whatever their nesting and order - early returns, nested guards,
+extra locals all end up as such a tree) and closes the leaves by linear integer arithmetic -/
+macro "src_arith" : tactic =>
+  `(tactic| (simp only [Option.isSome_none, Option.isSome_some, Option.getD_none, Option.getD_some, Bool.cond_eq_ite,
+      Go.ite_app, Go.pure] <;> (repeat' split) <;> simp_all <;> omega))
+
 /-- **The tie holds for this run:** `Gen/ClaimsSrc.lean` is the result of translating the current source. -/
 theorem c05_src_translated : Src.translationOk = true := by decide
 
@@ -46,20 +52,7 @@ theorem c05_src_validity (e : Expectation) (ls nowMs : Int) (nbf exp : Option In
       .done (if notYetValid e nbf nowMs || expired e exp nowMs then some Why.notYetValid else none) () := by
   unfold validitySrc Src.Validity.AssertValidity notYetValid expired
   rw [c05_src_leeway_seconds e ls h]
-  have hl : (bif decide (ls ≠ 0) then ls else 10) = if ls ≠ 0 then ls else 10 := by
-    by_cases hz : ls = 0 <;> simp [hz]
-  simp only [hl]
-  generalize (if ls ≠ 0 then ls else 10) = L
-  cases nbf <;> cases exp <;>
-    simp only [Option.isSome_none, Option.isSome_some, Option.getD_none, Option.getD_some, Bool.false_and,
-      Bool.true_and, cond_false, Bool.false_or, Bool.or_false, Go.cond_app, Go.pure]
-  · rfl
-  · rename_i t
-    by_cases h2 : nowMs / 1000 - L ≥ t <;> simp [h2]
-  · rename_i t
-    by_cases h1 : nowMs / 1000 + L < t <;> simp [h1]
-  · rename_i t1 t2
-    by_cases h1 : nowMs / 1000 + L < t1 <;> by_cases h2 : nowMs / 1000 - L ≥ t2 <;> simp [h1, h2]
+  cases nbf <;> cases exp <;> src_arith
 
 /-- **`AssertIssuanceTime` refuses iff the token was issued in the future** beyond the leeway; the whole-second
 comparison of the source agrees with the millisecond comparison of the model at every clock reading. -/
@@ -67,17 +60,7 @@ theorem c05_src_issued_at (e : Expectation) (ls nowMs : Int) (iat : Option Int) 
     issuedSrc ls nowMs iat () = .done (if issuedInFuture e iat nowMs then some Why.issuedInFuture else none) () := by
   unfold issuedSrc Src.IssuedAt.AssertIssuanceTime issuedInFuture
   rw [c05_src_leeway_millis e ls h]
-  have hl : (bif decide (ls ≠ 0) then ls else 10) = if ls ≠ 0 then ls else 10 := by
-    by_cases hz : ls = 0 <;> simp [hz]
-  simp only [hl]
-  generalize (if ls ≠ 0 then ls else 10) = L
-  cases iat with
-  | none => simp [Go.pure]
-  | some t =>
-    have hd : (decide (nowMs / 1000 + L < t)) = decide (nowMs + 1000 * L < t * 1000) := by
-      apply decide_eq_decide.mpr; omega
-    simp only [Option.isSome_some, Option.getD_some, Bool.true_and, hd, Go.cond_app, Go.pure]
-    by_cases h1 : nowMs + 1000 * L < t * 1000 <;> simp [h1]
+  cases iat <;> src_arith
 
 /-- **`AssertIssuer`: a token that names no issuer is refused whatever the list of trusted issuers contains**; a named
 issuer is accepted iff it is listed. -/
